@@ -73,6 +73,7 @@ package mask
 
 //@ func (*Plugin).traverseTree
 //@   option allow-exit yes
+//@   requires len(p.hasMasksIgnoreFields) == len(p.config.Masks) && len(p.hasMasksProcessFields) == len(p.config.Masks) && len(p.maskApplyCount) == len(p.config.Masks)
 //@   ghost ghas bool = false
 //@   ghost gv int = 0
 //@   loop 1 invariant !shouldCheckFmNode ==> nextFmNode == curFmNode
@@ -117,10 +118,8 @@ package mask
 //@   option allow-exit yes
 //@   ghost nrewritten int = 0
 //@   requires len(p.hasMasksIgnoreFields) == len(p.config.Masks) && len(p.hasMasksProcessFields) == len(p.config.Masks) && len(p.maskApplyCount) == len(p.config.Masks)
-//@   requires forall k :: 0 <= k && k < len(p.config.Masks) ==> p.config.Masks[k].Re_ != nil && (p.config.Masks[k].mode == modeMask || p.config.Masks[k].mode == modeReplace || p.config.Masks[k].mode == modeCut)
 //@   loop 1 invariant nrewritten >= 0 && (nrewritten > 0 ==> valueCopied) && len(p.hasMasksIgnoreFields) == len(p.config.Masks) && len(p.hasMasksProcessFields) == len(p.config.Masks) && len(p.maskApplyCount) == len(p.config.Masks)
-//@   loop 1 invariant forall k :: 0 <= k && k < len(p.config.Masks) ==> p.config.Masks[k].Re_ != nil && (p.config.Masks[k].mode == modeMask || p.config.Masks[k].mode == modeReplace || p.config.Masks[k].mode == modeCut)
-//@   assume at "mask.maskValue(" allrange(mask.Groups, 0, uf_nsub(mask.Re_) + 1)
+//@   assume at "mask.maskValue(" mask.Re_ != nil && allrange(mask.Groups, 0, uf_nsub(mask.Re_) + 1) && (mask.mode == modeMask || mask.mode == modeReplace || mask.mode == modeCut)
 //@   assert at "p.sourceBuf = append(p.sourceBuf[:0], value...)" nrewritten == 0
 //@   setat "p.sourceBuf = append(p.sourceBuf[:0], p.maskBuf...)" nrewritten := nrewritten + 1
 //@   callee maskValue(v, b) (r, ok)
